@@ -35,7 +35,8 @@ MODULE = 'PyPhysim.Properties.C17'
 DRIVER = 'drv_c17'
 CLAIM = {
     'technique': 'Lean 4 structural-induction proofs of dec(enc v) = norm v lifted through the class and file layers '
-                 '+ exact token-level correspondence of the model with the real to_json/from_json/save/load',
+                 '+ exact token-level correspondence of the model with the real to_json/from_json/save/load '
+                 '+ field tables and encoder/hook ladders regenerated from the AST with bridge theorems',
     'text': 'Kernel-checked for all inputs: for every supported value tree (Python scalars, numpy scalars of widths '
             '8-64, strings, lists, sets, real numeric arrays of any shape incl. zero-sized and 0-d, dicts without the '
             'two hook-reserved keys) decoding the encoding returns the value with numpy scalars replaced by the Python '
@@ -50,8 +51,20 @@ CLAIM = {
             'injective, and the name does not change when numpy scalars are replaced by Python scalars. The model is '
             'the repaired code, tied to it by exact comparison of the JSON tree and of the complete loaded state on '
             'seeded objects built through the real constructors, update() histories and files; independent oracles '
-            '(the classes\' ==, a first-principles deep comparison, pickle, files, names) search for failing inputs.',
-    'note': 'Trusted: Lean kernel; CPython json/pickle/repr(float)/str.format/os.path.splitext; numpy '
+            '(the classes\' ==, a first-principles deep comparison, pickle, files, names) search for failing inputs. '
+            'Second tie: Generated/C17Fields.lean is re-emitted from the current AST on every run with the '
+            '(key, attribute) tables of Result / SimulationResults / SimulationParameters._to_dict and _from_dict '
+            '(per path of Result._from_dict: field-by-field and CHOICETYPE replay), the d.get defaults, the decision '
+            'ladder of NumpyOrSetEncoder.default (class accepted and JSON form per branch, in test order) and the '
+            'marks / keys of json_numpy_or_set_obj_hook; theorems generated_field_tables_match_model, '
+            'generated_reader_tables_match_model, generated_default_matches_model (the model\'s toDict / fromDict '
+            'are these tables, for all objects), generated_fields_round_trip (writer and reader tables mutually '
+            'consistent: a field dropped, renamed on one side or read into another attribute is refused), '
+            'generated_encoder_ladder_matches_model (the ladder computes enc on every numpy scalar / array / set) '
+            'and generated_hook_matches_model (hook = objHook; encoder and hook agree on marks and keys).',
+    'note': 'Trusted: Lean kernel; the extractor harness/gen/c17.py (reads structure only: which attribute a '
+            'dictionary value is made of behind value-preserving wrappers, which key an attribute is assigned from, '
+            'which class an isinstance path accepts; values are covered by the correspondence); CPython json/pickle/repr(float)/str.format/os.path.splitext; numpy '
             'array<->tolist, dtype names and np.array(data, dtype).reshape; the correspondence harness. The value '
             'of an array, in the model and in every comparison, is its logical content (dtype, shape, index -> element, '
             'i.e. tolist()), independent of its memory layout: every generated array of ndim >= 2 is also exercised '
@@ -3019,7 +3032,7 @@ def check(ctx):
                 'SimulationResults with several results per name, runned_reps, current_rep; .json/.pickle/no-extension '
                 'files with parameter templates. non-trivial = distinct spec that is a container / numpy scalar / '
                 'has >=1 parameter / >=1 update')
-    core.prove(ctx, MODULE, generated=[], drivers=[DRIVER], scratch=ctx.scratch)
+    core.prove(ctx, MODULE, generated=['C17Fields'], drivers=[DRIVER], scratch=ctx.scratch)
     ctx.required_branches = ['R8:argument-forms', 'R8:argument-forms-sim', 'R10:heterogeneous-collection',
                              'R12:insertion-order', 'R13:combined-object', 'R14:counts-257-258-300-65537',
                              'params:child-own-values-differ-from-original', 'params:post-op:set:child',
